@@ -6,7 +6,7 @@
    nulls (so a subscript that was ENOENT reads null afterwards) - see [frame_needs_existing]. *)
 Require Import List NArith ZArith Bool Lia.
 Import ListNotations.
-Require Import LV.PropTree.PropModel LV.PropTree.RebuildProofs LV.PropTree.ApiProofs.
+Require Import LV.PropTree.PropModel LV.PropTree.QuoteProofs LV.PropTree.RebuildProofs LV.PropTree.ApiProofs.
 
 Inductive diverge : list expr -> list expr -> Prop :=
 | div_key k k' es es' :
@@ -119,4 +119,122 @@ Lemma set_frame_example :
 Proof.
   split; [|repeat split; reflexivity].
   apply div_cons; [exact I|]. apply div_cons; [unfold plain_step, INT_MAX; lia|]. apply div_key. reflexivity.
+Qed.
+
+(* ------------------------------------------------------------------ frame law of vnaproperty_delete
+   [delete_at] is applied by vdelete once the path has been found.  Deleting the LAST subscript of a
+   path removes the element and moves the higher ones down, so only lower subscripts keep their
+   position there (the shift itself is [delete_shifts]); everywhere else a different subscript is
+   enough. *)
+Inductive diverge_del : list expr -> list expr -> Prop :=
+| dd_key k k' es es' :
+    bytes_eqb k' k = false -> diverge_del (E_MAP_ELEMENT k :: es) (E_MAP_ELEMENT k' :: es')
+| dd_idx_last i i' es' :
+    (i' < i)%Z -> diverge_del [E_LIST_ELEMENT i] (E_LIST_ELEMENT i' :: es')
+| dd_idx i i' e es es' :
+    (0 <= i)%Z -> i <> i' -> diverge_del (E_LIST_ELEMENT i :: e :: es) (E_LIST_ELEMENT i' :: es')
+| dd_cons e e1 es es' :
+    plain_step e -> diverge_del (e1 :: es) es' -> diverge_del (e :: e1 :: es) (e :: es').
+
+Lemma lookup_remove_other {A} k k' (kv : list (bytes * A)) :
+  bytes_eqb k' k = false -> lookup k' (remove_key k kv) = lookup k' kv.
+Proof.
+  intros H. induction kv as [|[k1 v1] r IH]; simpl; [reflexivity|].
+  destruct (bytes_eqb k k1) eqn:E; simpl.
+  - apply bytes_eqb_eq in E. subst k1. now rewrite H.
+  - destruct (bytes_eqb k' k1); [reflexivity|exact IH].
+Qed.
+
+Lemma get_list_element_inv i' es' n v :
+  descend_get (E_LIST_ELEMENT i' :: es') n = inr v ->
+  exists vec al c, n = NList vec al /\ (0 <= i')%Z /\ nth_error vec (Z.to_nat i') = Some c /\ descend_get es' c = inr v.
+Proof.
+  cbn [descend_get]. destruct n as [| | | vec al]; try discriminate.
+  destruct (i' <? 0)%Z eqn:E0; [discriminate|].
+  destruct (i' <? Z.of_nat (length vec))%Z eqn:E1; [|discriminate].
+  destruct (nth_error vec (Z.to_nat i')) as [c|] eqn:N; [|discriminate].
+  intros H. exists vec, al, c. apply Z.ltb_ge in E0. auto.
+Qed.
+
+Lemma get_list_element_intro i' es' vec al c :
+  (0 <= i')%Z -> nth_error vec (Z.to_nat i') = Some c ->
+  descend_get (E_LIST_ELEMENT i' :: es') (NList vec al) = descend_get es' c.
+Proof.
+  intros H0 N. cbn [descend_get].
+  replace (i' <? 0)%Z with false by (symmetry; apply Z.ltb_ge; lia).
+  assert (Z.to_nat i' < length vec)%nat by (apply nth_error_Some; congruence).
+  replace (i' <? Z.of_nat (length vec))%Z with true by (symmetry; apply Z.ltb_lt; lia).
+  now rewrite N.
+Qed.
+
+Lemma delete_frame : forall es1 es2, diverge_del es1 es2 ->
+  forall n v, descend_get es2 n = inr v -> descend_get es2 (delete_at es1 n) = inr v.
+Proof.
+  induction 1 as [k k' es es' Hk | i i' es' Hi | i i' e es es' H0 Hi | e e1 es es' He Hd IH]; intros n v Hg.
+  - cbn [descend_get] in Hg. destruct n as [| | kv | ]; try discriminate.
+    destruct (lookup k' kv) as [c|] eqn:L; [|discriminate].
+    cbn [delete_at map_entries]. destruct es as [|e0 es0].
+    + cbn [descend_get]. rewrite (lookup_remove_other _ _ _ Hk), L. exact Hg.
+    + destruct (lookup k kv) as [c0|] eqn:L0.
+      * cbn [descend_get]. rewrite (lookup_update_other _ _ _ _ Hk), L. exact Hg.
+      * cbn [descend_get]. rewrite L. exact Hg.
+  - destruct (get_list_element_inv _ _ _ _ Hg) as (vec & al & c & -> & Hp & N & Hc).
+    cbn [delete_at list_parts].
+    rewrite (get_list_element_intro i' es' _ al c Hp); [exact Hc|].
+    rewrite nth_error_remove_nth.
+    replace (Nat.ltb (Z.to_nat i') (Z.to_nat i)) with true by (symmetry; apply Nat.ltb_lt; lia).
+    exact N.
+  - destruct (get_list_element_inv _ _ _ _ Hg) as (vec & al & c & -> & Hp & N & Hc).
+    cbn [delete_at list_parts].
+    rewrite (get_list_element_intro i' es' _ al c Hp); [exact Hc|].
+    rewrite nth_error_set_nth_other by lia. exact N.
+  - destruct e; simpl in He; try contradiction.
+    + cbn [descend_get] in Hg. destruct n as [| | kv | ]; try discriminate.
+      destruct (lookup k kv) as [c|] eqn:L; [|discriminate].
+      cbn [delete_at map_entries]. rewrite L. cbn [descend_get].
+      rewrite (lookup_update_same _ _ _ _ L). apply IH. exact Hg.
+    + destruct (get_list_element_inv _ _ _ _ Hg) as (vec & al & c & -> & Hp & N & Hc).
+      cbn [delete_at list_parts].
+      assert (Hlt : (Z.to_nat i < length vec)%nat) by (apply nth_error_Some; congruence).
+      rewrite (get_list_element_intro i es' _ al (delete_at (e1 :: es) c) Hp).
+      * apply IH. exact Hc.
+      * rewrite (nth_nth_error _ _ NNull _ N). now apply nth_error_set_nth.
+Qed.
+
+(* non-vacuity, and the shift that makes the "lower subscript" side condition necessary *)
+Lemma delete_frame_example :
+  let n := NMap [([97%N], NList [NScalar [120%N]; NScalar [121%N]; NScalar [122%N]] 8); ([98%N], NScalar [119%N])] in
+  let del := [E_MAP_ELEMENT [97%N]; E_LIST_ELEMENT 1] in
+  diverge_del del [E_MAP_ELEMENT [97%N]; E_LIST_ELEMENT 0] /\
+  diverge_del del [E_MAP_ELEMENT [98%N]] /\
+  descend_get [E_MAP_ELEMENT [97%N]; E_LIST_ELEMENT 0] (delete_at del n) = inr (NScalar [120%N]) /\
+  descend_get [E_MAP_ELEMENT [98%N]] (delete_at del n) = inr (NScalar [119%N]) /\
+  (* the higher subscript moved down: [2] was "z", now [1] is "z" and [2] is gone *)
+  descend_get [E_MAP_ELEMENT [97%N]; E_LIST_ELEMENT 1] (delete_at del n) = inr (NScalar [122%N]) /\
+  descend_get [E_MAP_ELEMENT [97%N]; E_LIST_ELEMENT 2] (delete_at del n) = inl ENOENT.
+Proof.
+  split; [apply dd_cons; [exact I|]; apply dd_idx_last; lia|].
+  split; [apply dd_key; reflexivity|]. repeat split; reflexivity.
+Qed.
+
+(* ------------------------------------------------------------------ byte level, through quote_key:
+   "k=v" leaves whatever the descriptor of another key k' finds (scalar, null, map or list:
+   vget, vget_subtree, vtype, vcount, vkeys all go through get_node) unchanged *)
+Lemma bytes_eqb_neq a b : a <> b -> bytes_eqb a b = false.
+Proof.
+  intros H. destruct (bytes_eqb a b) eqn:E; [|reflexivity]. apply bytes_eqb_eq in E. contradiction.
+Qed.
+
+Theorem set_quoted_frame root k k' v x :
+  k <> [] -> k' <> [] -> k' <> k ->
+  get_node root (quote_key k') = inr x ->
+  get_node (fst (vset root (quote_key k ++ 61%N :: v))) (quote_key k') = inr x.
+Proof.
+  intros Hk Hk' Hne Hg. unfold vset. rewrite (parse_quote_key_assign k v Hk). cbn [last_is_collection last].
+  unfold get_node in *. rewrite (parse_quote_key k' Hk') in *.
+  destruct (descend_get [E_MAP_ELEMENT k'] root) as [e|y] eqn:G; [discriminate|].
+  pose proof (set_frame [E_MAP_ELEMENT k] [E_MAP_ELEMENT k'] (div_key k k' [] [] (bytes_eqb_neq _ _ Hne))
+                        (fun _ => (NScalar v, tt)) root y G) as F.
+  destruct (descend_set [E_MAP_ELEMENT k] _ root) as [r' res]. cbn [fst] in F.
+  destruct res as [e|[]]; cbn [fst]; rewrite F; exact Hg.
 Qed.
